@@ -179,6 +179,56 @@ def multi_byte_packets(rng, mode, n, count):
     return pkts
 
 
+def overlong_rescan_section(rng, run, quick):
+    """Over-long packets that START as a token and END in a token: head in {valid own-address token, valid
+    foreign-address token, valid SOF, token with bad CRC5} x 1..3 extra bytes x tail in {own-address token, SOF,
+    own-address PING}, with every subset of the byte positions after the head preceded by an rx_valid gap (and no
+    gaps at all), so that the tail is aligned to wherever a detector that wrongly re-arms inside the packet would
+    resume scanning.  None of these packets is 3 bytes long: no event is owed for any of them."""
+    addr = rng.randrange(128)
+    st = RxStim(rng, addr=addr)
+    npk = 0
+    k = 0
+    for head_kind in ("own", "foreign", "sof", "badcrc"):
+        for extras in (1, 2, 3):
+            for tail_kind in ("token", "sof", "ping"):
+                ep = rng.randrange(16)
+                if head_kind == "own":
+                    head = token_octets(rng.choice(("OUT", "IN", "SETUP")), addr | (ep << 7))
+                elif head_kind == "foreign":
+                    head = token_octets(rng.choice(("OUT", "IN", "SETUP", "PING")), ((addr + 1 + rng.randrange(126)) & 0x7F) | (ep << 7))
+                elif head_kind == "sof":
+                    head = token_octets("SOF", rng.randrange(2048))
+                else:
+                    head = token_octets("OUT", addr | (ep << 7), flip=rng.randrange(5))
+                if tail_kind == "token":
+                    tail = token_octets(rng.choice(("OUT", "IN", "SETUP")), addr | (rng.randrange(16) << 7))
+                elif tail_kind == "sof":
+                    tail = token_octets("SOF", rng.randrange(2048))
+                else:
+                    tail = token_octets("PING", addr | (rng.randrange(16) << 7))
+                body = [rng.choice([0x00, 0xFF, 0xE1, 0xC3, rng.randrange(256)]) for _ in range(extras)]
+                octets = head + body + tail
+                free = len(octets) - 3
+                for mask in range(1 << free):
+                    lens = (1, 2, 3, 4) if (mask and not quick) else ((1 + k % 4,) if mask else (0,))
+                    for g in lens:
+                        hg = k % 2 if mask else 0                      # head bytes: back to back, or one gap each
+                        gaps = [0, hg, hg] + [g if mask >> i & 1 else 0 for i in range(free)]
+                        st.packet(octets, gaps=gaps, tail=k % 3)
+                        k += 1
+                        npk += 1
+                        if npk % 36 == 0:
+                            st.idle(LAT + 2)
+                            run(st.steps, "overlong-token-with-token-tail", st)
+                            st = RxStim(rng, addr=addr)
+                # an over-long packet directly followed by a real PING: exactly one event, the PING's
+                st.packet(octets, gaps=[0] * len(octets), tail=0)
+                st.packet(token_octets("PING", addr | (rng.randrange(16) << 7)))
+    st.idle(LAT + 2)
+    run(st.steps, "overlong-token-with-token-tail", st)
+
+
 def multi_byte_section(rng, mode, run, quick):
     """Short multi-byte packets x exhaustive rx_valid gap patterns (see gap_patterns)."""
     counts = {2: 16, 3: 12, 4: 10, 5: 8} if quick else {2: 48, 3: 48, 4: 32, 5: 24}
@@ -500,6 +550,8 @@ def check_C01(rep):
     run(st.steps, "pid-byte-corruptions-and-lengths", st)
     # (B) longer packets whose tail is a complete, correctly addressed token / SOF, every rx_valid gap pattern
     multi_byte_section(rng, "token", run, quick)
+    # (B) over-long packets that start as a token and end in a token, tail aligned to every possible re-scan point
+    overlong_rescan_section(rng, run, quick)
     # (B) random soups, changing address; all 128 addresses in the thorough tier
     pool = list(range(128)) if not quick else [0, 1, 0x3A, 0x40, 0x55, 0x7F, rng.randrange(128), rng.randrange(128)]
     for _ in range(14 if quick else 300):
